@@ -1,10 +1,15 @@
 import Mkdb.Proofs.Page
+import Mkdb.Proofs.EngineNodes3
 /-!
 # C12 — a page written to disk reads back as the same page
 
 Property theorems only.  Quantifier: every leaf / internal node within capacity — any
 number of cells up to the maximum, any value bytes up to `maxValueSize`, any flags, any
 64-bit offsets and LSNs.  The constants are the ones regenerated from storage/page.go.
+That the nodes the *engine* produces are within capacity and in range is
+`C12_every_engine_node_roundtrips` (levels model, every history) and
+`C12_every_heap_page_roundtrips_after_flushes_and_reloads` (page heap, histories with flushes and
+reloads), at the end of this file.
 -/
 namespace Mkdb.Page
 open Mkdb.Bin Mkdb.Generated
@@ -149,5 +154,89 @@ example : WFInternal ⟨8192, 7, 4096, (List.range 290).map fun i => ⟨i + 1, 4
   simp only [List.mem_map, List.mem_range] at hc
   obtain ⟨i, hi, rfl⟩ := hc
   exact ⟨by show i + 1 < 2 ^ 32; omega, by show 4096 * i < 2 ^ 64; omega⟩
+
+/-! ## Every node the engine can produce -/
+
+open Mkdb.Tree in
+/-- **C12.well_formed_tree_roundtrips**: every page of a tree that satisfies the C11 shape invariant
+(`Inv`: in particular no node over capacity) and whose fields are in the ranges of their Go types
+(`FieldsOK (2^64) (2^64) (2^32)`: page offsets, sibling and child pointers and LSNs are `uint64`, row ids
+and separator keys `uint32`, every cell value at most `maxValueSize` bytes) is well formed for the codec:
+it encodes to exactly one page of `pageSize` bytes, which decodes to the same node. -/
+theorem C12_well_formed_tree_roundtrips (t : Levels) (nf : Nat) (hinv : Inv t nf)
+    (hf : FieldsOK (2 ^ 64) (2 ^ 64) (2 ^ 32) t) :
+    ∀ e ∈ flatten t, WF e.2.1 ∧
+      ∃ page, encode e.2.1 = .ok page ∧ page.length = c_pageSize ∧ ∃ offs, decodePage page = .ok e.2.1 offs :=
+  fun e he => ⟨hf.wf hinv.cap e he, C12_roundtrip e.2.1 (hf.wf hinv.cap e he)⟩
+
+open Mkdb.Tree in
+/-- **C12.every_engine_node_roundtrips**: after any history of insertions, value changes and deletions
+from a freshly created table (the histories of `C11_every_history`: any number of leaf splits, internal
+splits at any depth, root growths), *every* page of the resulting tree - leaf or internal, with whatever
+number of cells, value sizes, tombstones, sibling links and LSN the history gave it - satisfies `WF`,
+hence serialises to exactly one page of `pageSize` bytes and deserialises to the identical node.
+Hypotheses, all decidable: `OpInRange` for every operation - a row id is a `uint32`, an LSN a `uint64`
+(the types of the Go fields), an *updated* value has at most `maxValueSize` bytes (`updateCell` refuses a
+larger one before it touches the page; an *inserted* value needs no hypothesis, `insertAppend` refuses a
+larger one itself: `rowTooLarge`) - and the allocation frontier at the end of the history is at most
+`2^64` (the file offset is a `uint64`; the frontier never goes down, so this bounds every offset the
+history handed out). -/
+theorem C12_every_engine_node_roundtrips (off nf : Nat) (h : off < nf) (ops : List TOp)
+    (hops : ∀ op ∈ ops, OpInRange op) (hnf : (runOps (emptyTree off, nf) ops).2 ≤ 2 ^ 64) :
+    ∀ e ∈ flatten (runOps (emptyTree off, nf) ops).1, WF e.2.1 ∧
+      ∃ page, encode e.2.1 = .ok page ∧ page.length = c_pageSize ∧ ∃ offs, decodePage page = .ok e.2.1 offs :=
+  fun e he => ⟨runOps_wf off nf h ops hops hnf e he, C12_roundtrip e.2.1 (runOps_wf off nf h ops hops hnf e he)⟩
+
+/-- a history with three leaf splits and a root: 20 inserts, one of them with a value of the maximum
+size, an update to the maximum size, a deletion -/
+def opsC12 : List Mkdb.Tree.TOp :=
+  ((List.range' 1 20).map fun k => Mkdb.Tree.TOp.ins k (1000 + k) (List.replicate (if k = 7 then 400 else k) 0xff)) ++
+  [.upd 3 2000 (List.replicate 400 1), .del 5 2001]
+
+set_option maxRecDepth 8000 in
+open Mkdb.Tree in
+/-- non-vacuity: the history meets the hypotheses and ends with four leaves under one internal node -/
+example : (∀ op ∈ opsC12, OpInRange op) ∧ (runOps (emptyTree 4096, 8192) opsC12).2 ≤ 2 ^ 64 ∧
+    ((runOps (emptyTree 4096, 8192) opsC12).1.leaves.length, (runOps (emptyTree 4096, 8192) opsC12).1.inner.length) = (4, 1) := by
+  decide
+
+set_option maxRecDepth 8000 in
+open Mkdb.Tree in
+/-- non-vacuity of `C12_well_formed_tree_roundtrips`: the four-leaf tree the history `opsC12` ends with
+satisfies both hypotheses -/
+example : Inv (runOps (emptyTree 4096, 8192) opsC12).1 (runOps (emptyTree 4096, 8192) opsC12).2 ∧
+    FieldsOK (2 ^ 64) (2 ^ 64) (2 ^ 32) (runOps (emptyTree 4096, 8192) opsC12).1 :=
+  ⟨C11_every_history 4096 8192 (by decide) opsC12,
+   runOps_fields opsC12 (emptyTree 4096, 8192) (by decide) (by decide)
+     (emptyTree_fields _ _ _ 4096 (by decide) (by decide))⟩
+
+open Mkdb.Tree Mkdb.Store in
+/-- **C12.every_heap_page_roundtrips_after_flushes_and_reloads**: on the page heap, through histories
+in which flushes (any page write order) and reloads are interleaved with the tree operations
+(`C11_every_history_with_flushes_and_reloads`): every page the final heap shows for the tree - whether it
+comes from the cache or, after a reload or an eviction, from the data file - is the page of the levels
+model, and it serialises to exactly one page and deserialises to itself; so writing it out and reading
+it back never changes what it means.  Hypotheses: those of the C11 theorem (`HeapInv`, `RunOKF`), the
+starting tree's fields in range (`FieldsOK`; true of the empty tree of a new table), every tree operation
+in range (`FROpInRange`: `uint32` row ids, `uint64` LSNs, updated values within `maxValueSize`), the final
+allocation frontier at most `2^64`. -/
+theorem C12_every_heap_page_roundtrips_after_flushes_and_reloads (ops : List FROp) (s : Store) (t : Levels)
+    (h : HeapInv s t) (hf : FieldsOK (2 ^ 64) (2 ^ 64) (2 ^ 32) t) (hok : RunOKF (t, s.hdr.nextFree) ops)
+    (hops : ∀ op ∈ ops, FROpInRange op) (hnf : (runF (t, s.hdr.nextFree) ops).2 ≤ 2 ^ 64) :
+    ∃ s' root', heapRunF (rootOff t) ops s = .ok root' s' ∧
+      ∀ e ∈ flatten (runF (t, s.hdr.nextFree) ops).1, view s' e.1 = some (e.2.1, e.2.2) ∧ WF e.2.1 ∧
+        ∃ page, encode e.2.1 = .ok page ∧ page.length = c_pageSize ∧ ∃ offs, decodePage page = .ok e.2.1 offs := by
+  obtain ⟨s', root', e, _, h', _⟩ := heapRunF_refines ops s t h hok
+  refine ⟨s', root', e, fun x hx => ?_⟩
+  have hwf := runF_wf t s.hdr.nextFree h.inv hf ops hops hnf x hx
+  exact ⟨h'.holds x hx, hwf, C12_roundtrip x.2.1 hwf⟩
+
+open Mkdb.Tree Mkdb.Store in
+/-- non-vacuity: the history `opsF0` (two leaf splits, three flushes, three reloads) from the store `s0` of
+a fresh table meets every hypothesis -/
+example : HeapInv s0 (emptyTree 4096) ∧ FieldsOK (2 ^ 64) (2 ^ 64) (2 ^ 32) (emptyTree 4096) ∧
+    RunOKF (emptyTree 4096, s0.hdr.nextFree) opsF0 ∧ (∀ op ∈ opsF0, FROpInRange op) ∧
+    (runF (emptyTree 4096, s0.hdr.nextFree) opsF0).2 ≤ 2 ^ 64 :=
+  ⟨s0_heapInv, emptyTree_fields _ _ _ 4096 (by decide) (by decide), by decide, by decide, by decide⟩
 
 end Mkdb.Page
